@@ -177,6 +177,7 @@ func (d *deepView) strLang(v ssa.Value, fr *frame, depth int) []seg {
 					}
 				case "var":
 					in[i].note = id + "(" + in[i].note + ")"
+					in[i].folded = id
 				}
 			}
 			return in
